@@ -3,7 +3,7 @@
 // back to the plane in Drop: outside the installed Verus (Entry API, String-keyed HashMap with borrowed &str lookups) and
 // Kani (std HashMap). Checked natively on EVERY operation sequence up to VERIF_BX_DEPTH over two agents {/x, /y},
 // item names {a, b}, map keys {"", "k"}, values {"", "v", "ww"}, including dropping a node store and re-opening it and
-// requests for the store of a running agent that are abandoned.
+// requests for the store of a running agent that are abandoned, and restarts that overlap the teardown of the old instance.
 // Contract (abstract model): a mapping (agent URI, item name) -> Value(bytes) | Map(key -> bytes) | nothing;
 //   every read returns exactly what the preceding writes to that item imply; items/agents never affect each other;
 //   the id assigned to a name never changes and never collides; using a value item as a map (or vice versa) is rejected
@@ -30,6 +30,10 @@ enum Op {
     Reopen(usize),
     // a second request for the store of a running agent that is given up (the future is dropped un-polled / after one poll)
     Abandon(usize, bool),
+    // the agent is started again BEFORE the stopping instance has given its store back: the new instance waits; optionally one
+    // more request for the same node is made and given up meanwhile (the server does that for every envelope naming the node);
+    // then the old instance goes away. The new instance either fails to start or holds the state.
+    Overlap(usize, bool),
 }
 const URIS: [&str; 2] = ["/x", "/y"];
 const NAMES: [&str; 2] = ["a", "b"];
@@ -42,6 +46,8 @@ fn ops() -> Vec<Op> {
         v.push(Op::Reopen(a));
         v.push(Op::Abandon(a, false));
         v.push(Op::Abandon(a, true));
+        v.push(Op::Overlap(a, false));
+        v.push(Op::Overlap(a, true));
         for n in 0..2 {
             v.push(Op::Get(a, n));
             v.push(Op::Delete(a, n));
@@ -98,6 +104,25 @@ fn run_sequence(seq: &[Op]) -> Result<(), String> {
                     }
                 }
                 drop(fut);
+                continue;
+            }
+            Op::Overlap(a, extra) => {
+                let waker = futures::task::noop_waker();
+                let mut cx = std::task::Context::from_waker(&waker);
+                let mut waiting = plane.node_store(URIS[a]);
+                if waiting.as_mut().poll(&mut cx).is_ready() {
+                    return Err(format!("step {step}: a second store for the running agent {} was handed out", URIS[a]));
+                }
+                if extra {
+                    let mut other = plane.node_store(URIS[a]);
+                    let _ = other.as_mut().poll(&mut cx);
+                    drop(other);
+                }
+                nodes[a] = None; // the stopping instance goes away
+                match futures::executor::block_on(waiting) {
+                    Ok(node) => nodes[a] = Some(node), // it must hold the state: checked by the reads that follow (and the epilogue)
+                    Err(_) => nodes[a] = Some(open(&plane, a)), // the start failed; a later start must find the state
+                }
                 continue;
             }
         };
@@ -238,7 +263,7 @@ fn run_sequence(seq: &[Op]) -> Result<(), String> {
                     }
                 }
             },
-            Op::Reopen(_) | Op::Abandon(..) => unreachable!(),
+            Op::Reopen(_) | Op::Abandon(..) | Op::Overlap(..) => unreachable!(),
         }
     }
     Ok(())
